@@ -50,6 +50,9 @@ pub struct Scenario {
     pub bad_store: u8,
     /// style of CNB_BUILDPACK_DIR: 0 plain, 1 trailing slash, 2 with "/./"
     pub bp_dir_style: u8,
+    /// hand the layers directory to the build phase through a symlink (a mounted volume)
+    #[serde(default)]
+    pub layers_via_symlink: bool,
     /// inject EIO into one of the calls that read <platform>/env (position chosen by this value)
     pub read_fault: Option<u64>,
 }
@@ -219,6 +222,7 @@ pub fn generate(seed: u64) -> Scenario {
         store: r.bool().then(|| gen_table(&mut r, 0)),
         bad_store: if r.chance(1, 12) { 1 + r.below(2) as u8 } else { 0 },
         bp_dir_style: r.below(3) as u8,
+        layers_via_symlink: r.chance(1, 4),
         read_fault: r.chance(1, 6).then(|| r.next_u64()),
     }
 }
@@ -418,7 +422,14 @@ pub fn prepare_world(s: &Scenario, root: &Path) -> Result<PreparedWorld, String>
     if let Some(v) = &s.variant {
         env.push(("CNB_TARGET_ARCH_VARIANT".to_string(), v.clone()));
     }
-    let layers_arg = d.layers.display().to_string();
+    let layers_arg = if s.layers_via_symlink {
+        let link = root.join("layers-mount");
+        let _ = std::fs::remove_file(&link);
+        std::os::unix::fs::symlink(&d.layers, &link).map_err(io)?;
+        link.display().to_string()
+    } else {
+        d.layers.display().to_string()
+    };
     let args: Vec<OsString> = if s.build_phase {
         vec![layers_arg.clone().into(), d.platform.clone().into(), d.plan_in.clone().into()]
     } else {
